@@ -8,6 +8,9 @@ single DEVIATION from it are executed and their histories and return values comp
   folder     a saving folder set
   ctor7/ctorN  sampler (and RL scheduler/agent) objects constructed with seeds 7 / 12345 instead of None
   used       the sampler objects were used by hand before the calibration (samplers whose only carried state is random)
+  hashseed   the same run in ANOTHER interpreter process with a different PYTHONHASHSEED (selected configurations, all five losses)
+Selected configurations leave the small scope on purpose: a surrogate trained on > 500 rows, a likelihood loss on series of
+length 4100 (real length x simulated length > 2**24).
 Thorough adds all pairs of deviations.
 """
 from __future__ import annotations
@@ -50,6 +53,31 @@ def apply_dev(cfg, devs):
             if isinstance(c.get("scheduler", "rr"), dict):
                 c["scheduler"] = dict(c["scheduler"], agent_seed=sd, sched_seed=sd + 1)
     return c
+
+
+def one_run_other_process(cfg, hashseed):
+    """The same calibration in a fresh interpreter with another hash salt (set/dict order, hash() of str/bytes)."""
+    import json
+    import os
+    import pickle
+    import subprocess
+    import sys
+    import tempfile
+
+    fd, path = tempfile.mkstemp(suffix=".pkl")
+    os.close(fd)
+    try:
+        env = dict(os.environ, PYTHONHASHSEED=str(hashseed))
+        p = subprocess.run([sys.executable, "-m", "vf.checks.c01_sub", path], input=json.dumps(cfg).encode(), capture_output=True, env=env, check=False)
+        if p.returncode != 0:
+            raise RuntimeError(f"helper process failed: {p.stderr.decode()[-400:]}")
+        with open(path, "rb") as f:
+            out = pickle.load(f)
+    finally:
+        os.unlink(path)
+    if out[0] == "raised":
+        raise RuntimeError(f"{out[1]}: {out[2]}")
+    return out[1]
 
 
 def one_run(cfg):
@@ -120,7 +148,10 @@ def run_config(cfg, dev_sets):
         return out, True
     for devs in dev_sets:
         try:
-            h1, r1 = one_run(apply_dev(cfg, devs))
+            if "hashseed" in devs:
+                h1, r1 = one_run_other_process(apply_dev(cfg, [d for d in devs if d != "hashseed"]), 4242)
+            else:
+                h1, r1 = one_run(apply_dev(cfg, devs))
         except Exception as e:  # noqa: BLE001
             if isinstance(e, TypeError) and "pickle" in str(e) and "folder" in devs and isinstance(cfg.get("scheduler", "rr"), dict):
                 out.append(("rl-scheduler-unpicklable", f"deviation {devs} raised {type(e).__name__}: {e}", devs))
@@ -199,6 +230,18 @@ def main(ctx):
     # larger-scope probes: five samplers, ensemble 5, batch size 7, 12 batches
     five = [{"cls": c, "bs": b} for c, b in zip(("Halton", "BestBatch", "RandomUniform", "XGBoost", "RSequence"), (7, 3, 2, 2, 4))]
     cfgs.append({"lineup": five, "seed": S, "dims": 3, "model": "gauss2", "ensemble": 5, "loss": "minkowski", "batches": 12})
+    # another interpreter process with another hash salt: every loss, a surrogate, the RL scheduler
+    other = []
+    for li, loss in enumerate(["minkowski", "msm", "fourier", "gsl", "likelihood"]):
+        lu = [[{"cls": "Halton", "bs": 2}, {"cls": "BestBatch", "bs": 2}], [{"cls": "RandomUniform", "bs": 2}, {"cls": "XGBoost", "bs": 2}], [{"cls": "RSequence", "bs": 2}, {"cls": "ParticleSwarm", "bs": 2}]][li % 3]
+        other.append({"lineup": lu, "seed": S, "dims": 2, "model": "gauss2", "ensemble": 2, "loss": loss, "batches": 4, "D": 2, "T": 8})
+    other.append({"lineup": [{"cls": "Halton", "bs": 2}, {"cls": "RandomUniform", "bs": 2}], "seed": S, "dims": 2, "model": "gauss2", "ensemble": 1, "loss": "minkowski", "batches": 4, "scheduler": {"eps": 0.3, "alpha": -1}})
+    if not ctx.quick:
+        for lu in lineups(2)[::2]:
+            other.append({"lineup": lu, "seed": S + 1, "dims": 2, "model": "gauss2", "ensemble": 1, "loss": "msm", "batches": 2 * len(lu)})
+    # outside the small scope: a likelihood loss on series of length 4100 (real x simulated length > 2**24), a GP trained on > 500 rows
+    big_lik = {"lineup": [{"cls": "Halton", "bs": 1}, {"cls": "RandomUniform", "bs": 1}], "seed": S, "dims": 1, "model": "gauss1", "ensemble": 1, "loss": "likelihood", "batches": 2, "D": 1, "T": 4100}
+    big_gp = {"lineup": [{"cls": "Halton", "bs": 300}, {"cls": "RSequence", "bs": 300}, {"cls": "GaussianProcess", "bs": 5}], "seed": S, "dims": 2, "model": "gauss2", "ensemble": 1, "loss": "minkowski", "batches": 3, "D": 2, "T": 4}
     singles = [[d] for d in DEVIATIONS]
     pairs = [list(p) for p in itertools.combinations(DEVIATIONS, 2) if not (p[0].startswith("jobs") and p[1].startswith("jobs")) and not (p[0].startswith("ctor") and p[1].startswith("ctor"))]
     cells = []
@@ -207,7 +250,12 @@ def main(ctx):
         cells.append({"cfgs": cfgs[i:i + chunk], "dev_sets": singles if ctx.quick else singles + pairs})
     for c in uneven:
         cells.append({"cfgs": [c], "dev_sets": [["jobs2"], ["jobs4"], ["jobs2", "folder"]]})
-    ctx.bounds = {"configurations": len(cfgs) + len(uneven), "lineups": len(lus), "seeds": seeds, "losses": losses, "deviations": DEVIATIONS, "pairs_of_deviations": 0 if ctx.quick else len(pairs),
+    for c in other:
+        cells.append({"cfgs": [c], "dev_sets": [["hashseed"]] if ctx.quick else [["hashseed"], ["hashseed", "jobs2"], ["hashseed", "ctor7"]]})
+    cells.append({"cfgs": [big_lik], "dev_sets": [["twin"], ["hashseed"]]})
+    cells.append({"cfgs": [big_gp], "dev_sets": [["twin"], ["ctor7"], ["used"]] + ([] if ctx.quick else [["hashseed"], ["jobs2"]])})
+    ctx.bounds = {"configurations": len(cfgs) + len(uneven) + len(other) + 2, "other_process_configurations": len(other) + 1,
+                  "large_scope": ["likelihood loss, series length 4100", "Gaussian process trained on 600 rows"], "lineups": len(lus), "seeds": seeds, "losses": losses, "deviations": DEVIATIONS, "pairs_of_deviations": 0 if ctx.quick else len(pairs),
                   "rl": "eps {0,.3}, single session of 4 batches", "batches": "2 x len(line-up)" + ("" if ctx.quick else " + 1")}
     ctx.rule = "baseline + every single deviation (thorough: every pair) per configuration; evaluations = runs; non-trivial = deviation runs compared with their baseline; states = configurations"
     ctx.assumptions = ["joblib/loky returns results in submission order; completion order of workers is not enumerated", "bit-exact comparison of the five history arrays and of the return value"]
